@@ -125,7 +125,7 @@ prop("C17", "proof",
      "The property is VIOLATED by the code (finding F9): machine-checked on the faithful model -- the signature proof embeds Cv = {value, randomness} with value = v g_0^randomness "
      "mod N for every run (spok_carries_opening_of_v), so v is recomputable by the recipient. The sweep runs the property's own attacker on the serialized proofs of the real code "
      "(opening recomputation, dictionary test, v recovery, response differences, and the square-root recomputation from the range proofs) and reports the known-finding classes "
-     "(F9 x 3, F16: every Boudot range proof hands over the value it is about -- same_secret_response_pins_x is its formal core); anything outside them is a violation.", "DESIGN.md §10 C17", NOTE_CL)
+     "(F9 x 3); F16 (every Boudot range proof handed over the value it was about) was found through this property, repaired by ba36c2c and stays in the sweep as a regression case (same_secret_response_pins_x states the window the response leaves); anything outside the listed classes is a violation.", "DESIGN.md §10 C17", NOTE_CL)
 prop("C18", "proof",
      "Construction invariants proved for every sequence of draws: keygen returns N = p q, p <> q, p = 2p'+1, q = 2q'+1 passing the primality test, b and c squares mod N, > 1, "
      "coprime to N (hence squares modulo both factors: qr_mod_factor); bases likewise; commitment-key bases are powers of h, > 1, coprime; public-key byte codec round trip. "
